@@ -85,8 +85,40 @@ type S10 struct {
 	D4
 }
 
+// S11: the embedded struct's type is unexported, its fields are exported
+type ubase struct {
+	W string
+	X int
+}
+type S11 struct {
+	ubase
+	K int
+}
+
+// S12: X, 128 filler fields, Y at position 130, Base embedded at position 131 (the type is made once)
+var s12Type = func() reflect.Type {
+	fs := []reflect.StructField{{Name: "X", Type: reflect.TypeOf(0)}}
+	for i := 1; i <= 128; i++ {
+		fs = append(fs, reflect.StructField{Name: fmt.Sprintf("Fill%03d", i), Type: reflect.TypeOf(0)})
+	}
+	fs = append(fs, reflect.StructField{Name: "Y", Type: reflect.TypeOf("")})
+	fs = append(fs, reflect.StructField{Name: "Base", Type: reflect.TypeOf(Base{}), Anonymous: true})
+	return reflect.StructOf(fs)
+}()
+
 func shapeValue(sh string) interface{} {
 	switch sh {
+	case "S11":
+		return S11{ubase: ubase{W: "w", X: 33}, K: 21}
+	case "S12":
+		v := reflect.New(s12Type).Elem()
+		v.Field(0).SetInt(41)
+		for i := 1; i <= 128; i++ {
+			v.Field(i).SetInt(int64(i))
+		}
+		v.Field(129).SetString("4")
+		v.Field(130).Set(reflect.ValueOf(Base{W: "w", X: 33}))
+		return v.Interface()
 	case "S10":
 		return S10{Q: 15, D4: D4{D3{R: 14, D2: D2{D1: D1{T: 12, V: "v"}, U: 13}}}}
 	case "S9":
